@@ -2,7 +2,7 @@ import HpoModel
 open Hpo Hpo.Drv
 
 def handlers : List (DState → List String → Option Out) :=
-  [Drv.handle, Drv.handleGroup, Drv.handleTermId, Drv.handleQuery, Drv.handleFacts, Drv.handleSetCmp, Drv.handleText, Drv.handlePath, Drv.handleSim]
+  [Drv.handle, Drv.handleGroup, Drv.handleTermId, Drv.handleQuery, Drv.handleFacts, Drv.handleSetCmp, Drv.handleText, Drv.handlePath, Drv.handleSim, Drv.handleBinary]
 
 def dispatch (s : DState) (toks : List String) : Out :=
   let rec go : List (DState → List String → Option Out) → Out
@@ -11,6 +11,14 @@ def dispatch (s : DState) (toks : List String) : Out :=
       | some r => r
       | none => go hs
   go handlers
+
+/-- a token `@<path>` stands for the hex of that file's content (byte-level ops on shipped files) -/
+def expandFiles (toks : List String) : IO (List String) :=
+  toks.mapM fun t =>
+    if t.startsWith "@" then do
+      let b ← IO.FS.readBinFile (t.drop 1).toString
+      pure (Proto.bytesHex b.toList)
+    else pure t
 
 partial def loop (inp : IO.FS.Stream) (out : IO.FS.Stream) (s : DState) : IO Unit := do
   let line ← inp.getLine
@@ -27,6 +35,7 @@ partial def loop (inp : IO.FS.Stream) (out : IO.FS.Stream) (s : DState) : IO Uni
   | _ =>
     if s.dead then loop inp out s
     else
+      let toks ← if toks.any (·.startsWith "@") then expandFiles toks else pure toks
       let (s', lines) := dispatch s toks
       for l in lines do out.putStrLn l
       loop inp out s'
